@@ -1,7 +1,6 @@
 CONSTANTS
   Mode = "walk"
-  SeqLen = 8
-  Profile = "mixed"
+  SeqLen = 0
   Ids = {1, 2, 3}
   Vers = {1, 2, 3}
   Kinds = {"node", "way", "relation", "changeset", "note", "user", "bounds"}
